@@ -60,6 +60,14 @@ static inline u64 VT_mul(u64 x, u64 y, int w) {
     return ((VERIF_W[idx / 64] >> (idx % 64)) & 1) << PROD_SHIFT;
   }
 #endif
+#ifdef VERIF_SQ
+  /* atoms='AA' (quadratic forms: norm): the square of A-atom p is the table bit W[p]; a product of two *different*
+     A-atoms is outside the typing (poison) */
+  if (x == y && x >= ATOM_A0 && x < ATOM_A0 + VERIF_NA) {
+    u64 idx = x - ATOM_A0;
+    return ((VERIF_W[idx / 64] >> (idx % 64)) & 1) << PROD_SHIFT;
+  }
+#endif
   return VT_bad();
 }
 /* additions see symbolic product-range accumulators: straight-line, the verdict goes into the ghost flag */
@@ -208,8 +216,17 @@ static inline u32 ILSHR_32(u32 x, u32 n) {
 #define FDIV_64(x, y) VT_bad()
 #define FABS_32(x) ((u32)VT_bad())
 #define FABS_64(x) VT_bad()
+#ifdef VERIF_SQ
+/* atoms='AA' only: sqrt of a product-class value is an opaque (uninterpreted) function of it -- decides "sqrt is applied
+   once to the specified radicand", not that it is correctly rounded */
+u32 __CPROVER_uninterpreted_atoms_sqrt32(u32);
+u64 __CPROVER_uninterpreted_atoms_sqrt64(u64);
+static inline u32 FSQRT_32(u32 x) { if (!VT_prod(x)) return (u32)VT_bad(); return __CPROVER_uninterpreted_atoms_sqrt32(x); }
+static inline u64 FSQRT_64(u64 x) { if (!VT_prod(x)) return VT_bad(); return __CPROVER_uninterpreted_atoms_sqrt64(x); }
+#else
 #define FSQRT_32(x) ((u32)VT_bad())
 #define FSQRT_64(x) VT_bad()
+#endif
 /* float comparisons: only between control values (e.g. a constant alpha against 1) */
 #define VT_FCMP(name, op) \
   static inline u8 FCMP_##name##_32(u32 x, u32 y) { if (!VT_ctl32(x) || !VT_ctl32(y)) return (u8)(VT_hard() & 1); return (u8)((s32)x op (s32)y); } \
